@@ -4,8 +4,8 @@
    law is used, so they hold verbatim for Z, Q, R and for IEEE floats with a fixed summation order);
    the centring lemmas hold for every Op satisfying ring_theory. *)
 From Coq Require Import List Arith ZArith Ring Permutation Reals Lia.
-From TLV Require Import Base.Shape Base.PyList Base.Tensor Base.Ops Model.Base Model.Regress Proofs.RegressProofs Proofs.RegressProofsPlsr Proofs.RegressProofsR Proofs.RegressProofsLink Proofs.RegressProofsBlock Model.RegressObj Proofs.RegressProofsObj Proofs.RegressProofsObjR.
-From TLV Require Model.Factorized Proofs.FactorizedProofs5.
+From TLV Require Import Base.Shape Base.PyList Base.Tensor Base.Ops Model.Base Model.Regress Proofs.RegressProofs Proofs.RegressProofsPlsr Proofs.RegressProofsR Proofs.RegressProofsLink Proofs.RegressProofsBlock Model.RegressObj Proofs.RegressProofsObj Proofs.RegressProofsObjR Model.RegressObj2 Proofs.RegressProofsR7 Proofs.RegressProofsScore.
+From TLV Require Model.Factorized Proofs.FactorizedProofs5 Model.Metrics.
 Import ListNotations.
 
 
@@ -656,6 +656,74 @@ Theorem C19_plsr_obj_zero_state_predict : forall (F : Type) (Op : fops F), is_ri
 Proof. exact @plsr_obj_zero_state_predict. Qed.
 Print Assumptions C19_plsr_obj_zero_state_predict.
 
+
+(* ---- round 7 ---- *)
+(* a fit interrupted by initialize_cp raising in component c (LinAlgError of its SVD, e.g. non-finite data; the call precedes every
+   write of that component): the object is left with the complete columns of the components before c and zero columns from c on,
+   and the means / shapes of this fit; for c = 0 that is exactly the state a fit without pass budget leaves *)
+Theorem C19_plsr_fit_init_raising_spec : forall (F : Type) (Op : fops F) (sqrtF : F -> F) (init : tensor F -> list (tensor F))
+  (ne_solve : list (list F) -> list F -> list F) (c : nat) (p : pprm) (X Y : tensor F) (a : pattrs),
+  plsr_fit_entry Op sqrtF init ne_solve p X Y = FitOk a -> c < pp_ncomp p ->
+  exists a', plsr_fit_entry_init_raising Op sqrtF init ne_solve c p X Y = FitRaisePartial a' /\
+    a_xshape a' = a_xshape a /\ a_yshape a' = a_yshape a /\
+    X_mean_ (a_fit a') = X_mean_ (a_fit a) /\ Y_mean_ (a_fit a') = Y_mean_ (a_fit a) /\
+    comps (a_fit a') = firstn c (comps (a_fit a)) ++ repeat (zero_comp Op X (as_matrix Y)) (pp_ncomp p - c).
+Proof. exact @plsr_fit_init_raising_spec. Qed.
+Print Assumptions C19_plsr_fit_init_raising_spec.
+
+Corollary C19_plsr_fit_init_raising_first : forall (F : Type) (Op : fops F) (sqrtF : F -> F) (init : tensor F -> list (tensor F))
+  (ne_solve : list (list F) -> list F -> list F) (p : pprm) (X Y : tensor F) (a : pattrs),
+  plsr_fit_entry Op sqrtF init ne_solve p X Y = FitOk a -> 0 < pp_ncomp p ->
+  plsr_fit_entry_init_raising Op sqrtF init ne_solve 0 p X Y =
+  FitRaisePartial (mkPattrs (shape X) (shape (as_matrix Y)) (zero_plsr Op (pp_ncomp p) X (as_matrix Y))).
+Proof. exact @plsr_fit_init_raising_first. Qed.
+Print Assumptions C19_plsr_fit_init_raising_first.
+
+(* the unit-norm clause, exactly: over R a normalised vector has unit norm IF AND ONLY IF the vector it was obtained from is not
+   the zero vector; and squared norm 0 means every entry is 0 -- so the second alternative of C19_plsr_unit_norm /
+   C19_pobj_reachable_unit_norm is "the loading is the zero vector", which arises only from normalising a zero vector (the
+   implementation computes 0/0 = NaN there, the scores become NaN and lstsq raises: no successful fit exposes such a loading) *)
+Theorem C19_normalize_unit_iff : forall v : tensor R, sumsq Rops (normalize Rops sqrt v) = 1%R <-> sumsq Rops v <> 0%R.
+Proof. exact normalize_unit_iff. Qed.
+Print Assumptions C19_normalize_unit_iff.
+
+Theorem C19_sumsq_zero_entries : forall v : tensor R, sumsq Rops v = 0%R -> forall J, inb (shape v) J -> tget Rops v J = 0%R.
+Proof. exact sumsq_zero_entries. Qed.
+Print Assumptions C19_sumsq_zero_entries.
+
+(* ---- CP_PLSR.score(X, Y) (matrix Y) ---- *)
+(* it is the R2_score of tensorly/metrics/regression.py (the model of property C20, Model/Metrics.v, read only) applied to
+   (Y - Y_mean_, predict(X) - Y_mean_): commutative ring *)
+Theorem C19_plsr_score_is_R2 : forall (F : Type) (Op : fops F), is_ring Op ->
+  forall (a : pattrs (F:=F)) (X Y : tensor F),
+  plsr_score Op a X Y =
+  Metrics.R2_score Op (center Op Y (Y_mean_ (a_fit a)))
+    (tabulate (shape Y) (fun J => fsub Op (tget Op (fit_predict Op (a_fit a) X) J) (tget Op (Y_mean_ (a_fit a)) (tl J)))).
+Proof. exact @plsr_score_is_R2. Qed.
+Print Assumptions C19_plsr_score_is_R2.
+
+(* over R: the score is at most 1, with equality exactly when every prediction equals its target *)
+Theorem C19_plsr_score_le_1 : forall (a : pattrs (F:=R)) (X Y : tensor R), (plsr_score Rops a X Y <= 1)%R.
+Proof. exact plsr_score_le_1. Qed.
+Print Assumptions C19_plsr_score_le_1.
+
+Theorem C19_plsr_score_one_iff : forall (a : pattrs (F:=R)) (X Y : tensor R), (0 < score_den a Y)%R ->
+  (plsr_score Rops a X Y = 1%R <-> forall J, inb (shape Y) J -> tget Rops (fit_predict Rops (a_fit a) X) J = tget Rops Y J).
+Proof. exact plsr_score_one_iff. Qed.
+Print Assumptions C19_plsr_score_one_iff.
+
+(* the score is invariant under the constant shifts of the property, at the level of the entry points (validation, vector- or
+   matrix-valued training targets, the tests of predict): fit(X + c, Y + d).score(Xn + c, Yn + d) = fit(X, Y).score(Xn, Yn) *)
+Theorem C19_plsr_entry_score_shift : forall (init : tensor R -> list (tensor R)) (ne_solve : list (list R) -> list R -> list R)
+  (prm : pprm) (X Y c d : tensor R) (n : nat) (sx : list nat) (a : pattrs),
+  shape X = n :: sx -> (shape Y = [n] \/ exists m, shape Y = [n; m]) -> 0 < n ->
+  plsr_fit_entry Rops sqrt init ne_solve prm X Y = FitOk a ->
+  exists a', plsr_fit_entry Rops sqrt init ne_solve prm (shift Rops X c) (shift Rops Y d) = FitOk a' /\
+    forall q Xn Yn k, shape Xn = k :: sx -> shape Yn = [k; nth 1 (a_yshape a) 0] ->
+      plsr_score_entry Rops q a' (shift Rops Xn c) (shift Rops Yn (y_offset Y d)) = plsr_score_entry Rops q a Xn Yn.
+Proof. exact plsr_entry_score_shift. Qed.
+Print Assumptions C19_plsr_entry_score_shift.
+
 (* non-vacuity: Z is an instance; a 2-sample 2x2 problem with a vector-valued target *)
 Example C19_Z_is_ring : is_ring Zops.
 Proof. exact Zth. Qed.
@@ -813,4 +881,31 @@ Example C19_plsr_two_components_nonvacuous :
 Proof.
   cbv zeta. do 3 eexists. split; [reflexivity|]. split; [reflexivity|]. split; [reflexivity|].
   repeat split; try (vm_compute; reflexivity). vm_compute. discriminate.
+Qed.
+
+(* round 7: initialize_cp raising at component 1 of 2 keeps component 0 and leaves zero columns; at component 0 it leaves the zero state *)
+Example C19_plsr_init_raising_nonvacuous :
+  let X := mk [4; 2; 2] [4; -1; 0; 2; -3; 5; 1; 1; 2; 0; -2; -6; 1; 3; -4; 2]%Z in
+  let Y := mk [4] [1; -2; 4; 3]%Z in
+  let init := fun _ : tensor Z => [mk [2] [1; 0]%Z; mk [2] [0; 1]%Z] in
+  let prm := mkPprm 2 2 0%Z in
+  exists a a1 a0, plsr_fit_entry Zops Z.sqrt init (fun _ b => b) prm X Y = FitOk a /\
+    plsr_fit_entry_init_raising Zops Z.sqrt init (fun _ b => b) 1 prm X Y = FitRaisePartial a1 /\
+    plsr_fit_entry_init_raising Zops Z.sqrt init (fun _ b => b) 0 prm X Y = FitRaisePartial a0 /\
+    firstn 1 (comps (a_fit a1)) = firstn 1 (comps (a_fit a)) /\ nth 1 (fitted_scores (a_fit a1)) [] = [0; 0; 0; 0]%Z /\
+    nth 1 (fitted_scores (a_fit a)) [] <> [0; 0; 0; 0]%Z /\
+    a_fit a0 = zero_plsr Zops 2 X (as_matrix Y).
+Proof.
+  cbv zeta. do 3 eexists. split; [reflexivity|]. split; [reflexivity|]. split; [reflexivity|].
+  split; [vm_compute; reflexivity|]. split; [vm_compute; reflexivity|]. split; [vm_compute; discriminate|vm_compute; reflexivity].
+Qed.
+Example C19_unit_iff_nonvacuous : (sumsq Rops (mk [2%nat] [3; 4]) <> 0)%R /\ sumsq Rops (mk [2%nat] [0; 0]%R) = 0%R.
+Proof. unfold sumsq, fsum_idx, BigSum.sum_idx. cbn. split; Lra.lra. Qed.
+(* the score over R: one sample, one target, the zero state (predictions = Y_mean_ = 3): score(X, [[5]]) = 1 - 4/4 = 0 <= 1, and the
+   denominator hypothesis of C19_plsr_score_one_iff is satisfiable *)
+Example C19_score_nonvacuous :
+  let a := mkPattrs [1; 1] [1; 1] (mkPlsr (mk [1] [0%R]) (mk [1] [3%R]) []) in
+  (0 < score_den a (mk [1%nat; 1%nat] [5%R]))%R /\ plsr_score Rops a (mk [1%nat; 1%nat] [0%R]) (mk [1%nat; 1%nat] [5%R]) = 0%R.
+Proof.
+  cbv zeta. unfold plsr_score, score_den, fsum_idx, BigSum.sum_idx. cbn. split; [Lra.lra|]. unfold Rdiv. field.
 Qed.
